@@ -54,6 +54,9 @@ CHECKS['C15'] = dict(cat='model_checking', tech='complete newtype domains (Field
 CHECKS['C16'] = dict(cat='fault_enumeration', tech='TLA+ writer / LimitedReader machines model checked + every fault position of every header type executed and validated by Trace_Io',
    text="spec/IoFault.tla: a sink accepting cap bytes with write_all semantics (a prefix of the failing chunk may be delivered) and the LimitedReader machine; TLC checks PrefixOnly, FaultSurfaces, NoFalseSuccess, NeverOverpulls, BudgetConserved for all chunk plans / call sequences within bounds. Binding (fault positions enumerated, not sampled): for every header type and byte string (encodings of the MC_Wire value space incl. maximum-length variable parts, damaged control bytes, noise) the harness reads under a reader failing after k bytes for EVERY k in 0..=len, writes the decoded value into a writer failing after k bytes for EVERY k in 0..=total+1, write_to_slice into EVERY slice length with canaries behind it, read_limited under EVERY limit; Trace_Io derives the expected verdicts from Wire.tla (header length, content rules): faults surface, no false success, delivered bytes are a prefix, space errors state the true required length, nothing is written outside, no overpull.",
    note="13 single header types; the multi-part writers (IpHeaders, Ipv6Extensions, PacketBuilder incl. write_to_slice) are exercised by the C12 and C10 checks. Fault model: the source/sink delivers exactly k bytes, then errors.")
+CHECKS['C10'] = dict(cat='model_checking', tech='builder typestate machine in TLA+ (all paths enumerated by TLC) + output decoded by the TLA+ reference decoder and checksum machine',
+   text="spec/Builder.tla is the PacketBuilder typestate machine: every builder method is an action guarded by the typestate; TLC enumerates every complete path (ethernet2|linux_sll|none x none|single|double|explicit VLAN x ipv4|ipv6|IpHeaders with options/auth/10 extension sets|ARP x udp|tcp with every flag setter and three option forms|tcp_header|4 ICMPv4 forms|4 ICMPv6 forms|raw with protocol 253/59/0 x payload lengths {0,1,2,3,7,8,9,64} and the path's exact limit -1/0/+1) and checks the typestate invariants and SizeFits. Every path is executed on the real builder through write, write_to_vec and write_to_slice (+ a slice one byte too short, canaries). Trace_Builder uses an oracle independent of the crate: size(payload_len) = bytes written = spec Size; the three sinks agree; unencodable paths yield exactly the admissible error; the bytes are decoded by the strict reference decoder (Decoder.tla) which must find the configured layer sequence, addresses, ports, flags, options, VLAN ids, extension order (RFC 8200) and payload; every length field equals the real size; IPv4 header, UDP (never 0), TCP, ICMPv4 and ICMPv6 checksums verify under Checksum.tla.",
+   note="64 kB packets are checked for sizes, verdicts and length fields only (no byte-exact decode / checksum in TLC). Field values are fixed constants of the harness.")
 PENDING = {
 }
 NA = []
